@@ -7,6 +7,12 @@ mod json;
 mod prng;
 mod report;
 mod cal;
+mod dev;
+mod fatref;
+mod fsx;
+mod mkfs;
+mod selftest;
+mod vm;
 
 mod codec;
 
@@ -79,7 +85,7 @@ fn main() {
     };
     report::quiet_panics();
     let code = match which.to_uppercase().as_str() {
-        "SELFTEST" => selftest(&ctx),
+        "SELFTEST" => selftest::run(&ctx),
         "C17" => codec::lfn::run(&ctx),
         "C18" => codec::entry::run(&ctx),
         "C19" => codec::crc::run(&ctx),
@@ -91,21 +97,3 @@ fn main() {
     std::process::exit(code);
 }
 
-/// Validates the oracles themselves before they are trusted (DESIGN.md section 6).
-fn selftest(_ctx: &Ctx) -> i32 {
-    let mut bad = 0;
-    // 8.3 reference validator vs the library's own unit-test vectors
-    for (s, ok) in [("README.TXT", true), ("a", true), ("ABCDEFGH.IJK", true), ("ABCDEFGHI", false), ("A.BCDE", false), (".A", false), ("A B", false), ("A.B.C", false)] {
-        let r = codec::entry::name_ref(s);
-        if (r != codec::entry::NameRef::Reject) != ok {
-            println!("selftest: 8.3 reference wrong on {:?}", s);
-            bad += 1;
-        }
-    }
-    if bad == 0 {
-        println!("selftest ok");
-        0
-    } else {
-        2
-    }
-}
